@@ -5,6 +5,9 @@ View == state
 (* ACTION_CONSTRAINT: one line per generated transition, carrying the (shortest, because of
    BFS + VIEW) history that reaches the source state followed by the call just made *)
 Emit == PrintT("EMIT " \o ToJson([h |-> hist', chg |-> (state' # state)]))
+(* simulation: print only complete walks *)
+SimDepth == 28
+EmitEnd == (Len(hist') < SimDepth /\ mode' # "closed") \/ PrintT("EMIT " \o ToJson([h |-> hist', chg |-> TRUE]))
 (* smoke target for vacuity control: a state the invariants talk about must be reachable *)
 Reach1 == ~(mode = "indep" /\ "pb" \in pend /\ abuf)
 =============================================================================
